@@ -3,7 +3,10 @@
 package main
 
 import (
+	"fmt"
 	"runtime"
+	"strings"
+	"sync"
 	"time"
 
 	"github.com/buzzfeed/sso/internal/pkg/singleflight"
@@ -31,6 +34,13 @@ import (
 type exec struct {
 	owner   *caller          // nil when the world cannot tell (wrapper level)
 	release chan interface{} // the result the blocked fn / inner provider will return
+	cid     int              // the caller this execution was attributed to (0: none)
+}
+
+// logRec is one line of the execution log that fn / the inner providers write themselves.
+type logRec struct {
+	begin bool
+	ex    *exec
 }
 
 const (
@@ -42,6 +52,7 @@ const (
 
 type caller struct {
 	id         int
+	wid        int           // the wrapper object it calls (0 at the generic level)
 	spawn      func()        // starts the goroutine that performs the real call; closes done on return
 	done       chan struct{} // closed when the real call has returned (out is set before)
 	out        interface{}
@@ -49,7 +60,7 @@ type caller struct {
 	role       int
 	ran        bool
 	leader     *caller
-	sfKey      string // key of the call it created, as read from the group's map
+	sfKey      string // "<group index>|<key>" of the call it created, as read from the group's map
 	keyKnown   bool
 	fnReturned bool
 	returned   bool
@@ -63,7 +74,10 @@ type traceEv struct {
 }
 
 type engine struct {
-	g        *singleflight.Group
+	gs       []*singleflight.Group // distinct groups (by pointer)
+	gidx     []int                 // wrapper object -> index into gs
+	logMu    sync.Mutex
+	log      []logRec
 	starts   chan *exec
 	strayAns interface{}
 	callers  []*caller
@@ -74,18 +88,58 @@ type engine struct {
 	timeout  time.Duration
 }
 
-func newEngine(g *singleflight.Group, strayAns interface{}) *engine {
+// newEngine takes the group of every wrapper object (index = wrapper id). Objects that turn out
+// to hold the SAME group are snapshotted once.
+func newEngine(groups []*singleflight.Group, strayAns interface{}) *engine {
 	// generous bound for "the step never became visible"; once that has happened twice in a
 	// run the code under test is evidently broken and the remaining schedules use a short bound
 	to := 5 * time.Second
 	if timeouts >= 2 {
 		to = 300 * time.Millisecond
 	}
-	return &engine{g: g, starts: make(chan *exec, 256), strayAns: strayAns,
+	e := &engine{starts: make(chan *exec, 256), strayAns: strayAns,
 		leaderOf: map[string]*caller{}, timeout: to}
+	for _, g := range groups {
+		idx := -1
+		for i, h := range e.gs {
+			if h == g {
+				idx = i
+			}
+		}
+		if idx < 0 {
+			e.gs = append(e.gs, g)
+			idx = len(e.gs) - 1
+		}
+		e.gidx = append(e.gidx, idx)
+	}
+	return e
 }
 
-func (e *engine) snap() map[string]int { return singleflight.VerifSnapshot(e.g) }
+func (e *engine) groupOf(c *caller) *singleflight.Group { return e.gs[e.gidx[c.wid]] }
+
+func rawKey(k string) string { return k[strings.Index(k, "|")+1:] }
+
+func (e *engine) snap() map[string]int {
+	out := map[string]int{}
+	for i, g := range e.gs {
+		for k, d := range singleflight.VerifSnapshot(g) {
+			out[fmt.Sprintf("%d|%s", i, k)] = d
+		}
+	}
+	return out
+}
+
+// logBegin / logEnd are called by fn / the inner provider itself.
+func (e *engine) logBegin(ex *exec) {
+	e.logMu.Lock()
+	e.log = append(e.log, logRec{begin: true, ex: ex})
+	e.logMu.Unlock()
+}
+func (e *engine) logEnd(ex *exec) {
+	e.logMu.Lock()
+	e.log = append(e.log, logRec{begin: false, ex: ex})
+	e.logMu.Unlock()
+}
 
 func yield(n int) {
 	for i := 0; i < n; i++ {
@@ -130,6 +184,7 @@ func (e *engine) awaitDone(c *caller) bool {
 }
 
 func (e *engine) bindLeader(c *caller, ex *exec, before map[string]int) {
+	ex.cid = c.id
 	c.ex = ex
 	c.ran = true
 	c.role = roleLeading
@@ -228,10 +283,11 @@ func (e *engine) window(t *caller, ans interface{}, n *caller, newcomerFirst boo
 	if !t.keyKnown {
 		return e.fnReturn(t, ans)
 	}
-	singleflight.VerifLock(e.g)
-	waitDone := singleflight.VerifWaiter(e.g, t.sfKey)
+	g := e.groupOf(t)
+	singleflight.VerifLock(g)
+	waitDone := singleflight.VerifWaiter(g, rawKey(t.sfKey))
 	if waitDone == nil {
-		singleflight.VerifUnlock(e.g)
+		singleflight.VerifUnlock(g)
 		return e.fnReturn(t, ans)
 	}
 	// (no snapshot here: the shim's snapshot takes the mutex we hold. Whether the newcomer leads
@@ -252,7 +308,7 @@ func (e *engine) window(t *caller, ans interface{}, n *caller, newcomerFirst boo
 	case <-time.After(e.timeout):
 		e.broken = true
 		e.trace = append(e.trace, traceEv{kind: "fn", t: t.id, ans: ans})
-		singleflight.VerifUnlock(e.g)
+		singleflight.VerifUnlock(g)
 		return false
 	}
 	e.trace = append(e.trace, traceEv{kind: "fn", t: t.id, ans: ans})
@@ -261,7 +317,7 @@ func (e *engine) window(t *caller, ans interface{}, n *caller, newcomerFirst boo
 		n.spawn()
 	}
 	yield(60)
-	singleflight.VerifUnlock(e.g)
+	singleflight.VerifUnlock(g)
 
 	// who won?
 	deadline := time.Now().Add(e.timeout)
@@ -280,6 +336,7 @@ func (e *engine) window(t *caller, ans interface{}, n *caller, newcomerFirst boo
 			e.trace = append(e.trace, traceEv{kind: "cleanup", t: t.id})
 			delete(e.leaderOf, t.sfKey)
 			e.trace = append(e.trace, traceEv{kind: "enter", t: n.id})
+			ex.cid = n.id
 			n.ex, n.ran, n.role = ex, true, roleLeading
 			if _, ok := e.snap()[t.sfKey]; ok { // a fresh call of the same key
 				n.sfKey, n.keyKnown = t.sfKey, true
@@ -404,7 +461,6 @@ func (e *engine) walk(r *Rng, maxCallers int, newCaller func(id int, like *calle
 		e.abandon()
 	}
 }
-
 
 // drain finishes a scripted schedule whatever roles the callers actually got: every leader
 // still running is released with ans, every follower is waited for.
